@@ -46,7 +46,7 @@ def run(res, tier, seed, wd, replay=None):
             def go():
                 cfg = os.path.join(wd, "mc-%s.cfg" % p)
                 write_cfg(cfg, constants=consts(p, real), invariants=INVS)
-                r, out = tlc("MC_Holder", cfg, wd, workers=4, timeout=1800, tag="mch" + p, args=["-dumpTrace", "json", os.path.join(wd, "cex-%s.json" % p)])
+                r, out = tlc("MC_Holder", cfg, wd, workers=4, timeout=1800, tag="mch" + p, args=["-coverage", "1", "-dumpTrace", "json", os.path.join(wd, "cex-%s.json" % p)])
                 if r["violated"]:
                     try:
                         r["cex"] = json.load(open(os.path.join(wd, "cex-%s.json" % p)))
@@ -68,6 +68,9 @@ def run(res, tier, seed, wd, replay=None):
                          {"program": p, "orderings": real, "violated": r["violated"]},
                          {"engine": "holder", "origin": {"how": "tlc-counterexample", "program": p, "orderings": real},
                           "counterexample": cex})
+        if not any(r["violated"] for r in rs):
+            acts = check_vacuity("Holder.tla", rs)
+            res.notes["action_coverage"] = "every action of Holder.tla taken: " + ", ".join("%s=%d" % kv for kv in sorted(acts.items()))
         log("[E] Holder.tla with the source's orderings, %d programs, stale loads enabled: %d distinct states, violated=%s" % (
             len(progs), sum(r["distinct"] for r in rs), [r["violated"] for r in rs if r["violated"]]))
     else:
